@@ -2,8 +2,8 @@ package sysx
 
 import (
 	"context"
-	"errors"
 	"encoding/binary"
+	"errors"
 	"fmt"
 	"hash/fnv"
 	"net"
